@@ -175,3 +175,44 @@ Definition trace_from (ro : res obj) (es : list op) : list Z :=
   | Err e => [1; err_code e]
   | Ok o => 0 :: observe_packed o ++ trace o es
   end.
+
+(* ---- the hold of a minimum on/off time, as the statement of C17 describes it ----
+   Computed from what an observer sees (the present value before and after an operation, the
+   clock, the two minimum times) and from nothing inside the task manager: the state held in
+   slot 6 and the instant the hold ends.  PrioHold.v proves that slot 6 and the pending release of
+   the model are exactly this, after any history that does not itself command priority 6. *)
+Definition hold : Set := option (val * Z).       (* (state held in slot 6, until) *)
+
+(* a hold whose time is over is gone *)
+Definition expire (g : hold) (nw : Z) : hold :=
+  match g with
+  | Some (_, u) => if u <=? nw then None else g
+  | None => None
+  end.
+
+(* minimum time of a state; states other than active / inactive have none *)
+Definition min_time (on off : Z) (v : val) : Z :=
+  if v =? ACTIVE then on else if v =? INACTIVE then off else 0.
+
+(* one operation seen from outside: a change of the present value to a state with a minimum time
+   > 0 starts a hold of exactly that length at the current instant (replacing a running one); any
+   other operation leaves a running hold as it is — in particular a change to a state without a
+   minimum time; the hold ends when the clock reaches its deadline *)
+Definition hold_step (on off : Z) (g : hold) (pv0 pv1 now1 : Z) : hold :=
+  expire (if negb (pv1 =? pv0) && (0 <? min_time on off pv1)
+          then Some (pv1, now1 + min_time on off pv1) else g) now1.
+
+Fixpoint hold_after (o : obj) (g : hold) (es : list op) : hold :=
+  match es with
+  | [] => g
+  | e :: r => let o' := fst (step o e) in
+              hold_after o' (hold_step (min_on o) (min_off o) g (pv o) (pv o') (now o')) r
+  end.
+
+(* histories that leave priority 6 to the hold mechanism *)
+Fixpoint no_user6 (es : list op) : bool :=
+  match es with
+  | [] => true
+  | Cmd p _ :: r => negb (prio_index p =? 6) && no_user6 r
+  | Tick _ :: r => no_user6 r
+  end.
